@@ -29,6 +29,7 @@ package decor
 //@ func (WC).Format
 //@   props    C07 C12
 //@   requires wc.fill != nil && ((wc.C & DSyncWidth) != 0 ==> wc.wsync != nil)
+//@   assumes  text: plain(str) // the text a decorator formats carries no escape sequences (colour goes through Meta, applied after measuring)
 //@   modifies sent(wc.wsync), recvd(wc.wsync)
 //@   ensures  honest: result1 >= 0 && dw(result0) == result1
 //@   ensures  own: (wc.C & DSyncWidth) == 0 ==> result1 == max(wc.W, dw(str) + ite((wc.C & DextraSpace) != 0 && wc.W <= dw(str), 1, 0)) && sent(wc.wsync) == old(sent(wc.wsync))
@@ -140,9 +141,11 @@ package decor
 //@   ensures  dw(result) == dw(s)
 
 //@ func (any).Decor
-//@   props    C07 C12
+//@   props    C07 C12 C20
 //@   modifies pkgstate("decor"), sent("chan int"), recvd("chan int")
 //@   ensures  honest: result1 >= 0 && dw(result0) == result1
+//@   ensures  produced: called("decor_any.fn") == old(called("decor_any.fn")) + 1 && calledWith("decor_any.fn", 0) == s && calledWith("(WC).Format", 1) == returned("decor_any.fn", 0)
+//@              && result0 == returned("(WC).Format", 0) && result1 == returned("(WC).Format", 1)
 
 //@ func (*movingAverageETA).Decor
 //@   props    C07 C12 C20
@@ -213,9 +216,10 @@ package decor
 // constructors (they establish the struct invariants above)
 
 //@ func Any
-//@   props    C07 C02
+//@   props    C07 C02 C20
 //@   requires fn != nil
 //@   ensures  result != nil
+//@   ensures  built: hasType(result, "any") && unboxAs(result, "any").fn == fn
 
 
 // wrapper constructors: a nil decorator stays nil; otherwise the result is the wrapper around
@@ -446,26 +450,159 @@ package decor
 //@   loop 1   invariant 0 <= i && i <= 3
 //@   loop 1   decreases 3 - i
 
+// counter decorators: the producer picks the closure of the unit asked for and fills in the default
+// format; each closure hands fmt exactly the statistics it is named after, typed with that unit (C20)
 //@ func Counters
 //@   props    C02 C20
+//@   ensures  built: result != nil && calledWith("Any", 0) == returned("Counters.producer", 0) && result == returned("Any", 0) && called("Counters.producer") == old(called("Counters.producer")) + 1
 //@ func Counters$1
 //@   props    C02 C20
 //@   ensures  result != nil
+//@   ensures  kibi: hasType(unit, "SizeB1024") ==> fnof(result) == fn("Counters$1$1")
+//@   ensures  kilo: hasType(unit, "SizeB1000") ==> fnof(result) == fn("Counters$1$2")
+//@   ensures  plain: !hasType(unit, "SizeB1024") && !hasType(unit, "SizeB1000") ==> fnof(result) == fn("Counters$1$3")
+//@   ensures  given: old(pairFmt) != "" ==> pairFmt == old(pairFmt)
+//@   ensures  default: old(pairFmt) == "" ==> pairFmt == ite(hasType(unit, "SizeB1024") || hasType(unit, "SizeB1000"), "% d / % d", "%d / %d")
+//@ func Counters$1$1
+//@   props    C02 C20
+//@   ensures  handed: called("fmt.Sprintf") == old(called("fmt.Sprintf")) + 1 && calledWith("fmt.Sprintf", 0) == pairFmt && result == returned("fmt.Sprintf", 0) && len(calledWith("fmt.Sprintf", 1)) == 2
+//@              && hasType(calledWith("fmt.Sprintf", 1)[0], "SizeB1024") && unboxAs(calledWith("fmt.Sprintf", 1)[0], "SizeB1024") == s.Current
+//@              && hasType(calledWith("fmt.Sprintf", 1)[1], "SizeB1024") && unboxAs(calledWith("fmt.Sprintf", 1)[1], "SizeB1024") == s.Total
+//@ func Counters$1$2
+//@   props    C02 C20
+//@   ensures  handed: called("fmt.Sprintf") == old(called("fmt.Sprintf")) + 1 && calledWith("fmt.Sprintf", 0) == pairFmt && result == returned("fmt.Sprintf", 0) && len(calledWith("fmt.Sprintf", 1)) == 2
+//@              && hasType(calledWith("fmt.Sprintf", 1)[0], "SizeB1000") && unboxAs(calledWith("fmt.Sprintf", 1)[0], "SizeB1000") == s.Current
+//@              && hasType(calledWith("fmt.Sprintf", 1)[1], "SizeB1000") && unboxAs(calledWith("fmt.Sprintf", 1)[1], "SizeB1000") == s.Total
+//@ func Counters$1$3
+//@   props    C02 C20
+//@   ensures  handed: called("fmt.Sprintf") == old(called("fmt.Sprintf")) + 1 && calledWith("fmt.Sprintf", 0) == pairFmt && result == returned("fmt.Sprintf", 0) && len(calledWith("fmt.Sprintf", 1)) == 2
+//@              && hasType(calledWith("fmt.Sprintf", 1)[0], "int64") && unboxAs(calledWith("fmt.Sprintf", 1)[0], "int64") == s.Current
+//@              && hasType(calledWith("fmt.Sprintf", 1)[1], "int64") && unboxAs(calledWith("fmt.Sprintf", 1)[1], "int64") == s.Total
+
 //@ func Total
 //@   props    C02 C20
+//@   ensures  built: result != nil && calledWith("Any", 0) == returned("Total.producer", 0) && result == returned("Any", 0) && called("Total.producer") == old(called("Total.producer")) + 1
 //@ func Total$1
 //@   props    C02 C20
 //@   ensures  result != nil
+//@   ensures  kibi: hasType(unit, "SizeB1024") ==> fnof(result) == fn("Total$1$1")
+//@   ensures  kilo: hasType(unit, "SizeB1000") ==> fnof(result) == fn("Total$1$2")
+//@   ensures  plain: !hasType(unit, "SizeB1024") && !hasType(unit, "SizeB1000") ==> fnof(result) == fn("Total$1$3")
+//@   ensures  given: old(format) != "" ==> format == old(format)
+//@   ensures  default: old(format) == "" ==> format == ite(hasType(unit, "SizeB1024") || hasType(unit, "SizeB1000"), "% d", "%d")
+//@ func Total$1$1
+//@   props    C02 C20
+//@   ensures  handed: called("fmt.Sprintf") == old(called("fmt.Sprintf")) + 1 && calledWith("fmt.Sprintf", 0) == format && result == returned("fmt.Sprintf", 0) && len(calledWith("fmt.Sprintf", 1)) == 1
+//@              && hasType(calledWith("fmt.Sprintf", 1)[0], "SizeB1024") && unboxAs(calledWith("fmt.Sprintf", 1)[0], "SizeB1024") == s.Total
+//@ func Total$1$2
+//@   props    C02 C20
+//@   ensures  handed: called("fmt.Sprintf") == old(called("fmt.Sprintf")) + 1 && calledWith("fmt.Sprintf", 0) == format && result == returned("fmt.Sprintf", 0) && len(calledWith("fmt.Sprintf", 1)) == 1
+//@              && hasType(calledWith("fmt.Sprintf", 1)[0], "SizeB1000") && unboxAs(calledWith("fmt.Sprintf", 1)[0], "SizeB1000") == s.Total
+//@ func Total$1$3
+//@   props    C02 C20
+//@   ensures  handed: called("fmt.Sprintf") == old(called("fmt.Sprintf")) + 1 && calledWith("fmt.Sprintf", 0) == format && result == returned("fmt.Sprintf", 0) && len(calledWith("fmt.Sprintf", 1)) == 1
+//@              && hasType(calledWith("fmt.Sprintf", 1)[0], "int64") && unboxAs(calledWith("fmt.Sprintf", 1)[0], "int64") == s.Total
+
 //@ func Current
 //@   props    C02 C20
+//@   ensures  built: result != nil && calledWith("Any", 0) == returned("Current.producer", 0) && result == returned("Any", 0) && called("Current.producer") == old(called("Current.producer")) + 1
 //@ func Current$1
 //@   props    C02 C20
 //@   ensures  result != nil
+//@   ensures  kibi: hasType(unit, "SizeB1024") ==> fnof(result) == fn("Current$1$1")
+//@   ensures  kilo: hasType(unit, "SizeB1000") ==> fnof(result) == fn("Current$1$2")
+//@   ensures  plain: !hasType(unit, "SizeB1024") && !hasType(unit, "SizeB1000") ==> fnof(result) == fn("Current$1$3")
+//@   ensures  given: old(format) != "" ==> format == old(format)
+//@   ensures  default: old(format) == "" ==> format == ite(hasType(unit, "SizeB1024") || hasType(unit, "SizeB1000"), "% d", "%d")
+//@ func Current$1$1
+//@   props    C02 C20
+//@   ensures  handed: called("fmt.Sprintf") == old(called("fmt.Sprintf")) + 1 && calledWith("fmt.Sprintf", 0) == format && result == returned("fmt.Sprintf", 0) && len(calledWith("fmt.Sprintf", 1)) == 1
+//@              && hasType(calledWith("fmt.Sprintf", 1)[0], "SizeB1024") && unboxAs(calledWith("fmt.Sprintf", 1)[0], "SizeB1024") == s.Current
+//@ func Current$1$2
+//@   props    C02 C20
+//@   ensures  handed: called("fmt.Sprintf") == old(called("fmt.Sprintf")) + 1 && calledWith("fmt.Sprintf", 0) == format && result == returned("fmt.Sprintf", 0) && len(calledWith("fmt.Sprintf", 1)) == 1
+//@              && hasType(calledWith("fmt.Sprintf", 1)[0], "SizeB1000") && unboxAs(calledWith("fmt.Sprintf", 1)[0], "SizeB1000") == s.Current
+//@ func Current$1$3
+//@   props    C02 C20
+//@   ensures  handed: called("fmt.Sprintf") == old(called("fmt.Sprintf")) + 1 && calledWith("fmt.Sprintf", 0) == format && result == returned("fmt.Sprintf", 0) && len(calledWith("fmt.Sprintf", 1)) == 1
+//@              && hasType(calledWith("fmt.Sprintf", 1)[0], "int64") && unboxAs(calledWith("fmt.Sprintf", 1)[0], "int64") == s.Current
+
 //@ func InvertedCurrent
 //@   props    C02 C20
+//@   ensures  built: result != nil && calledWith("Any", 0) == returned("InvertedCurrent.producer", 0) && result == returned("Any", 0) && called("InvertedCurrent.producer") == old(called("InvertedCurrent.producer")) + 1
 //@ func InvertedCurrent$1
 //@   props    C02 C20
 //@   ensures  result != nil
+//@   ensures  kibi: hasType(unit, "SizeB1024") ==> fnof(result) == fn("InvertedCurrent$1$1")
+//@   ensures  kilo: hasType(unit, "SizeB1000") ==> fnof(result) == fn("InvertedCurrent$1$2")
+//@   ensures  plain: !hasType(unit, "SizeB1024") && !hasType(unit, "SizeB1000") ==> fnof(result) == fn("InvertedCurrent$1$3")
+//@   ensures  given: old(format) != "" ==> format == old(format)
+//@   ensures  default: old(format) == "" ==> format == ite(hasType(unit, "SizeB1024") || hasType(unit, "SizeB1000"), "% d", "%d")
+//@ func InvertedCurrent$1$1
+//@   props    C02 C20
+//@   assumes  domain: 0 <= s.Current && s.Current <= s.Total // the documented domain; outside it the difference may wrap
+//@   ensures  handed: called("fmt.Sprintf") == old(called("fmt.Sprintf")) + 1 && calledWith("fmt.Sprintf", 0) == format && result == returned("fmt.Sprintf", 0) && len(calledWith("fmt.Sprintf", 1)) == 1
+//@              && hasType(calledWith("fmt.Sprintf", 1)[0], "SizeB1024") && unboxAs(calledWith("fmt.Sprintf", 1)[0], "SizeB1024") == s.Total - s.Current
+//@ func InvertedCurrent$1$2
+//@   props    C02 C20
+//@   assumes  domain: 0 <= s.Current && s.Current <= s.Total // the documented domain; outside it the difference may wrap
+//@   ensures  handed: called("fmt.Sprintf") == old(called("fmt.Sprintf")) + 1 && calledWith("fmt.Sprintf", 0) == format && result == returned("fmt.Sprintf", 0) && len(calledWith("fmt.Sprintf", 1)) == 1
+//@              && hasType(calledWith("fmt.Sprintf", 1)[0], "SizeB1000") && unboxAs(calledWith("fmt.Sprintf", 1)[0], "SizeB1000") == s.Total - s.Current
+//@ func InvertedCurrent$1$3
+//@   props    C02 C20
+//@   assumes  domain: 0 <= s.Current && s.Current <= s.Total // the documented domain; outside it the difference may wrap
+//@   ensures  handed: called("fmt.Sprintf") == old(called("fmt.Sprintf")) + 1 && calledWith("fmt.Sprintf", 0) == format && result == returned("fmt.Sprintf", 0) && len(calledWith("fmt.Sprintf", 1)) == 1
+//@              && hasType(calledWith("fmt.Sprintf", 1)[0], "int64") && unboxAs(calledWith("fmt.Sprintf", 1)[0], "int64") == s.Total - s.Current
+
+// unit shortcuts: the unit each is named after, the format and the configuration unchanged
+//@ func CountersNoUnit
+//@   props    C02 C20
+//@   ensures  unit: called("Counters") == old(called("Counters")) + 1 && !hasType(calledWith("Counters", 0), "SizeB1024") && !hasType(calledWith("Counters", 0), "SizeB1000")
+//@              && calledWith("Counters", 1) == pairFmt && calledWith("Counters", 2) == wcc && result == returned("Counters", 0)
+//@ func CountersKibiByte
+//@   props    C02 C20
+//@   ensures  unit: called("Counters") == old(called("Counters")) + 1 && hasType(calledWith("Counters", 0), "SizeB1024")
+//@              && calledWith("Counters", 1) == pairFmt && calledWith("Counters", 2) == wcc && result == returned("Counters", 0)
+//@ func CountersKiloByte
+//@   props    C02 C20
+//@   ensures  unit: called("Counters") == old(called("Counters")) + 1 && hasType(calledWith("Counters", 0), "SizeB1000")
+//@              && calledWith("Counters", 1) == pairFmt && calledWith("Counters", 2) == wcc && result == returned("Counters", 0)
+//@ func TotalNoUnit
+//@   props    C02 C20
+//@   ensures  unit: called("Total") == old(called("Total")) + 1 && !hasType(calledWith("Total", 0), "SizeB1024") && !hasType(calledWith("Total", 0), "SizeB1000")
+//@              && calledWith("Total", 1) == format && calledWith("Total", 2) == wcc && result == returned("Total", 0)
+//@ func TotalKibiByte
+//@   props    C02 C20
+//@   ensures  unit: called("Total") == old(called("Total")) + 1 && hasType(calledWith("Total", 0), "SizeB1024")
+//@              && calledWith("Total", 1) == format && calledWith("Total", 2) == wcc && result == returned("Total", 0)
+//@ func TotalKiloByte
+//@   props    C02 C20
+//@   ensures  unit: called("Total") == old(called("Total")) + 1 && hasType(calledWith("Total", 0), "SizeB1000")
+//@              && calledWith("Total", 1) == format && calledWith("Total", 2) == wcc && result == returned("Total", 0)
+//@ func CurrentNoUnit
+//@   props    C02 C20
+//@   ensures  unit: called("Current") == old(called("Current")) + 1 && !hasType(calledWith("Current", 0), "SizeB1024") && !hasType(calledWith("Current", 0), "SizeB1000")
+//@              && calledWith("Current", 1) == format && calledWith("Current", 2) == wcc && result == returned("Current", 0)
+//@ func CurrentKibiByte
+//@   props    C02 C20
+//@   ensures  unit: called("Current") == old(called("Current")) + 1 && hasType(calledWith("Current", 0), "SizeB1024")
+//@              && calledWith("Current", 1) == format && calledWith("Current", 2) == wcc && result == returned("Current", 0)
+//@ func CurrentKiloByte
+//@   props    C02 C20
+//@   ensures  unit: called("Current") == old(called("Current")) + 1 && hasType(calledWith("Current", 0), "SizeB1000")
+//@              && calledWith("Current", 1) == format && calledWith("Current", 2) == wcc && result == returned("Current", 0)
+//@ func InvertedCurrentNoUnit
+//@   props    C02 C20
+//@   ensures  unit: called("InvertedCurrent") == old(called("InvertedCurrent")) + 1 && !hasType(calledWith("InvertedCurrent", 0), "SizeB1024") && !hasType(calledWith("InvertedCurrent", 0), "SizeB1000")
+//@              && calledWith("InvertedCurrent", 1) == format && calledWith("InvertedCurrent", 2) == wcc && result == returned("InvertedCurrent", 0)
+//@ func InvertedCurrentKibiByte
+//@   props    C02 C20
+//@   ensures  unit: called("InvertedCurrent") == old(called("InvertedCurrent")) + 1 && hasType(calledWith("InvertedCurrent", 0), "SizeB1024")
+//@              && calledWith("InvertedCurrent", 1) == format && calledWith("InvertedCurrent", 2) == wcc && result == returned("InvertedCurrent", 0)
+//@ func InvertedCurrentKiloByte
+//@   props    C02 C20
+//@   ensures  unit: called("InvertedCurrent") == old(called("InvertedCurrent")) + 1 && hasType(calledWith("InvertedCurrent", 0), "SizeB1000")
+//@              && calledWith("InvertedCurrent", 1) == format && calledWith("InvertedCurrent", 2) == wcc && result == returned("InvertedCurrent", 0)
 
 //@ func OnCompleteMetaOrOnAbortMeta
 //@   props    C02 C07
